@@ -11,7 +11,7 @@ pub mod c04;
 pub mod c05;
 pub mod c11;
 pub mod c13;
-#[cfg(feature = "allfeat")]
+#[cfg(feature = "fb")]
 pub mod c14;
 pub mod c16;
 pub mod c19;
@@ -128,7 +128,7 @@ pub fn replay(property: &str, case: &serde_json::Value) -> Result<(), String> {
         "C04" => c04::replay(case),
         "C11" => c11::replay(case),
         "C13" => c13::replay(case),
-        #[cfg(feature = "allfeat")]
+        #[cfg(feature = "fb")]
         "C14" => c14::replay(case),
         "C16" => c16::replay(case),
         "C19" => c19::replay(case),
@@ -152,7 +152,7 @@ pub fn run(property: &str, ctx: &Ctx, rep: &mut Report) -> Result<(), String> {
         "C11" => c11::run(ctx, rep),
         "C12" => hist::run("C12", ctx, rep),
         "C13" => c13::run(ctx, rep),
-        #[cfg(feature = "allfeat")]
+        #[cfg(feature = "fb")]
         "C14" => c14::run(ctx, rep),
         "C15" => {
             purity::run(ctx, rep); // first, while the process is still single-threaded
@@ -191,7 +191,7 @@ pub fn run(property: &str, ctx: &Ctx, rep: &mut Report) -> Result<(), String> {
             sweeps::run_c10(ctx, rep);
         }
         "C17" => {
-            if cfg!(feature = "allfeat") {
+            if cfg!(feature = "fh") {
                 spec::run_special("C17", crate::special::hazmat_cases(ctx.tier), rep);
             } else {
                 rep.notes.push("hazmat feature off in this build".into());
